@@ -105,7 +105,10 @@ class Pages(Files):
                     filepath, stat_result, if_none_match, if_modified_since
                 )(environ, start_response)
             if stat.S_ISDIR(stat_result.st_mode):
-                url = URL(environ=environ)
+                try:
+                    url = URL(environ=environ)
+                except ValueError:  # a Host header that is no URL authority
+                    raise HTTPException(400) from None
                 url = url.replace(scheme="", path=url.path + "/")
                 return RedirectResponse(url)(environ, start_response)
 
